@@ -178,6 +178,24 @@ def nonadditive(eng, axis=0, measure="mean"):
     return obs
 
 
+def overlapping_difference(eng, strand=False):
+    """a difference whose addend and subtrahend lists share an id: the shared category cancels ((c1 + c2) - c2 = c1),
+    in base cells' columns, in a column subtotal (intersection) and on a strand"""
+    rins = [D("r(1,2)-(2)", [1, 2], [2], anchor="top")]
+    rows = ("cat", "a", 3, {"missing_at": (1,), "insertions": rins})
+    cols = ("cat", "b", 2, {"missing_at": (0,), "insertions": [S("c12", [1, 2])]})
+    w = CellWorld(eng, [rows] if strand else [rows, cols])
+    part = Cube(w.response()).partitions[0]
+    r1 = w.valid(0)[0]
+    if strand:
+        want = C.to_array([w.W[(r1,)]])
+        return [Obs("counts of the difference row", part.counts[:1], want)]
+    cv = w.valid(1)
+    base = [w.W[r1, j] for j in cv]
+    want = C.to_array(base + [base[0] + base[1]])
+    return [Obs("counts of the difference row (base columns, column subtotal)", part.counts[0, :], want)]
+
+
 def signed_counts(eng, valid_counts=False, other="cat"):
     """count of any subtotal = sum addends - sum subtrahends (stale / missing ids contribute nothing); intersections;
     own-direction base / proportion of a difference and difference x difference are NaN"""
@@ -345,6 +363,8 @@ def specs(tier):
         add("non-additive %s rows" % meas, "nonadditive", dict(axis=0, measure=meas))
     add("non-additive mean cols", "nonadditive", dict(axis=1, measure="mean"))
     add("signed counts, intersections, NaN rules", "signed_counts", dict())
+    add("difference with an id on both sides (slice)", "overlapping_difference", dict())
+    add("difference with an id on both sides (strand)", "overlapping_difference", dict(strand=True))
     add("signed counts with valid counts", "signed_counts", dict(valid_counts=True))
     add("signed counts x mr", "signed_counts", dict(other="mr"))
     for axis in (0, 1):
